@@ -13,7 +13,6 @@ for line in out.splitlines():
     if m:
         res.setdefault(m.group(1), {'status': 'DETECTED', 'findings': []})['findings'].append(m.group(2))
 why_missed = {
- 'C09-Br9': 'the formatter prints the decoded pad character of a helper shared with the model visitor instead of the token text; a rule "token text is not substituted under a test of the text itself" was designed (DESIGN 8.2, round 9) and not built',
  'C11-Br9': 'a comment-wrapping loop that makes no progress when the last word is longer than the line: a termination argument over string arithmetic, no structural clause',
  'C02-Ar9': 'the Go init() registrations are collected for the packet and its direct inline objects only (a descent that stops at depth one); which emitted call ends up in which emitted init() is not a relation between Go-level facts the matrix sees',
  'C05-Ar9': 'the Python register calls are deferred to the end of the module but written out for top-level packets only: same slip as C02-Ar9 (a per-name side table consulted for declared packets only)',
